@@ -94,6 +94,8 @@ Print Assumptions C07_winddown_no_deadlock.
    whether or not writes were refused -- a plain acquire_stop of a finite acquisition included.  `gmeasure` additionally counts
    100 per frame the source may still deliver (max_frame_count - iframe while it is in its loop); an acquisition configured
    with a huge max_frame_count has a huge but finite measure (it is "unbounded" only in that nobody waits for it: DESIGN 6.8).
+   A camera frame call that returns no frame (DGetEmpty) is a poll event here: the source goes back to its loop test without
+   having used up a frame (+20 at most); in the wind-down phase Ph it strictly decreases `measure`.
    Not in the model, hence assumptions of "stop returns": the source is not blocked for ever on a full queue (C03: a writer
    resumes when readers consume; a registered monitor that has stopped consuming while frames remain stalls the writer by
    design and is excluded by the property's own hypothesis), fairness, time passes. *)
